@@ -48,8 +48,9 @@
 (* switch-off; with Faithful = TRUE the code's successor is in the graph   *)
 (* too, labelled dev.  Where a reload falls into a hold the statement does *)
 (* not say whether the old deadline (D, the code) or the last at-or-above  *)
-(* instant with the new duration (I) governs; Recalc allows both answers   *)
-(* whenever neither is early, so a repair along (I) conforms as well.      *)
+(* instant with the new duration (I) governs: HoldBy selects (D), (I) or,  *)
+(* for pure model checking, both answers at once.  (I) is never early, so  *)
+(* a repair along (I) conforms without a deviation.                        *)
 (***************************************************************************)
 EXTENDS Integers, FiniteSets, TLC, Json
 
@@ -62,7 +63,9 @@ CONSTANTS Peers,        \* set of strings: the other nodes
           MinDurs,      \* MinimumActivationDuration values, in ticks
           Timeout,      \* peer.PeerEntryTimeout in ticks
           AdvSteps,     \* clock advances, in ticks
-          HoldStrict, ExpiryClosed, Faithful
+          HoldStrict, ExpiryClosed,
+          HoldBy,       \* "deadline" | "instant" | "either" (see below)
+          Faithful
 
 \* threshold sets for the .cfg files (a cfg cannot write tuples): Thresholds <- ThOne.
 \* The values coincide with levels the bounded inputs produce, so that both
@@ -170,14 +173,17 @@ Recalc ==
       early   == mode = "monitor" /\ stressed /\ ~codeOn /\ since1 < minDur
       \* (D) and (I) agree unless a reload fell into a hold; the statement then
       \* permits either answer, except (D)'s early switch-off
-      Allowed == {IF early THEN TRUE ELSE codeOn, instOn}
+      dOut    == IF early THEN TRUE ELSE codeOn
+      Allowed == CASE HoldBy = "deadline" -> {dOut}
+                   [] HoldBy = "instant"  -> {instOn}
+                   [] OTHER               -> {dOut, instOn}
   IN /\ level' = lv
      /\ rem' = rem1
      /\ since' = since1
      /\ UNCHANGED <<mode, actLvl, deactLvl, minDur, local, reports>>
      /\ \/ /\ stressed' \in Allowed
            /\ act' = [name |-> "Recalc"]
-        \/ /\ Faithful /\ early
+        \/ /\ Faithful /\ HoldBy # "instant" /\ early
            /\ stressed' = codeOn
            /\ act' = [name |-> "Recalc", dev |-> "hold-not-rearmed"]
 
